@@ -275,12 +275,19 @@ Lemma plan_split : forall v ni rh,
   ++ [WForm (params_of ni)].
 Proof. reflexivity. Qed.
 
-Lemma sec_stage : forall v ni ks s,
-  fold_left apply_wop [WSecurity s] (fold_left apply_wop (plan_ctr v ni) (ncp_blank ks)) =
-  {| n_params := None; n_sec := Some s;
-     n_nwk_fc := if 4 <? v then nwk_key_fc ni else 0; n_aps_fc := if 4 <? v then tclk_fc ni else 0;
-     n_keys := []; n_key_size := ks; n_children := [] |}.
-Proof. intros v ni ks s. unfold plan_ctr. destruct (4 <? v); reflexivity. Qed.
+(* from any start store with empty key and child tables (whatever its network, security state and
+   frame counters): the counters are overwritten exactly when the version can store them *)
+Lemma sec_stage : forall v ni st0 s,
+  n_keys st0 = [] -> n_children st0 = [] ->
+  fold_left apply_wop [WSecurity s] (fold_left apply_wop (plan_ctr v ni) st0) =
+  {| n_params := n_params st0; n_sec := Some s;
+     n_nwk_fc := if 4 <? v then nwk_key_fc ni else n_nwk_fc st0;
+     n_aps_fc := if 4 <? v then tclk_fc ni else n_aps_fc st0;
+     n_keys := []; n_key_size := n_key_size st0; n_children := [] |}.
+Proof.
+  intros v ni st0 s Hk Hc. destruct st0 as [a b c d e f g]. cbn [n_keys n_children] in Hk, Hc.
+  subst e g. unfold plan_ctr. destruct (4 <? v); reflexivity.
+Qed.
 
 Lemma keys_stage : forall v ni st,
   n_keys st = [] -> NoDup (map fst (link_keys ni)) ->
